@@ -13,15 +13,20 @@ PROP = dict(
          "pool, parameters, input); non-trivial = at least 3 elements and 2 parts",
     class_names={0: "vnbest", 1: "vnfirst", 2: "kmeans2", 3: "kmeans3", 4: "fm", 5: "kl", 6: "arcswap"},
     trusted_base=[
-        "axioms: none (every theorem of Properties/C02.v is closed under the global context)",
+        "axioms: C02_arcswap_partial (ArcSwap with the f64 share the code computes) imports C05's Flocq-based theorem that the "
+        "f64 share is the exact quotient below 2^53 and therefore uses the axioms of Coq's classical real numbers "
+        "(ClassicalDedekindReals.sig_forall_dec, ClassicalDedekindReals.sig_not_dec, "
+        "FunctionalExtensionality.functional_extensionality_dep, Classical_Prop.classic); every other theorem of "
+        "Properties/C02.v, C02_arcswap_exact_share_partial included, is closed under the global context",
+        "Flocq 4.1 (through Proofs/ArcSwapShare.v, for C02_arcswap_partial only)",
         "KMeans: only an ABSTRACT model (the numeric core is an oracle); its arithmetic is not verified",
         "the per-algorithm theorems for VnBest/VnFirst/FM/KL/ArcSwap are derived from the property theorems of Properties/C14, C07, C15, C05 "
         "(by name; Proofs/C02Collect.v; KL at the flags of Gen/KlGen.v, for either edge_cut function) and are tied to the code by those checks; this check itself runs the implementation only (panic / hang / "
         "length / id bound)",
-        "ArcSwap: sequential consistency of the atomics (the interleaving semantics of Model/ArcSwap.v) is assumed; no-panic / "
-        "termination are proved for the exact per-thread share (headroom_quot), which the f64 share of the code is proved to equal "
-        "for headrooms in [-512,512] and 1..4 threads (C05_f64_share_exact_small) and is checked per run beyond "
-        "(headroom_checked); integer i64 weights",
+        "ArcSwap: the machine of Model/ArcSwap.v interleaves single shared-memory accesses (sequential consistency: the "
+        "schedules the property quantifies over); no-panic / no-deadlock / termination / completion are proved for the share "
+        "the code computes in f64 when |cap| + total vertex weight < 2^53 (C02_arcswap_partial) and for the exact share "
+        "without bound (C02_arcswap_exact_share_partial); integer i64 weights",
         "FM: every theorem quantifies over all oracles (iteration order of the gain buckets); the weight cap must convert to i64",
         "NOT proved: KernighanLin on three or more part ids (the code reaches unimplemented!: open known finding, the theorem "
         "C02_kl_two_parts_partial covers at most two ids); ArcSwap on a one-part input is only bounded by id <= 1",
@@ -42,13 +47,14 @@ MANIFEST = dict(
          "bucket-order oracle: no panic, terminates within initial cut + 2 passes, completed runs stay in {0,1}; an accepted "
          "oracle exists), KernighanLin (PARTIAL: at most two part ids; labels only permuted), ArcSwap (every reachable state "
          "under every schedule: length kept, ids below part_count; PARTIAL no-panic / no-deadlock / well-founded stepping / "
-         "completion for the exact share, sequential consistency assumed); k-means only through an abstract model whose "
+         "completion for the f64 share of the code when |cap| + total weight < 2^53 -- classical-reals axioms -- and for the "
+         "exact share without bound); k-means only through an abstract model whose "
          "numeric core is an arbitrary oracle (for EVERY oracle the output keeps its length and uses only ids of the input). "
          "Plus a run of all six algorithms on valid partitions under six pool sizes with overflow checks and debug assertions "
          "on, every output judged by the exact validity checker; panics and hangs are violations. KernighanLin on more than "
          "two parts is a known finding (unimplemented!).",
     design_ref="DESIGN.md §7 C02",
-    note="PARTIAL for KMeans (oracle model), KernighanLin (two part ids) and ArcSwap's no-hang clause (exact share, SC). This "
+    note="PARTIAL for KMeans (oracle model), KernighanLin (two part ids) and ArcSwap's no-hang clause (weights below 2^53 for the code's f64 share). This "
          "check does not evaluate a model per case; the models are compared in C05/C07/C14/C15.",
     technique="Coq proof (per-algorithm validity theorems; abstract oracle model for k-means) + certified validity checker on implementation runs",
 )
